@@ -291,6 +291,24 @@ func noise() {
 	noiseMap.ValuesForPath("n.l[5].k[")
 }
 
+// disturb runs other encoder/decoder calls; checks call it between obtaining a result and using it, because a
+// result must not depend on (or be overwritten by) what the library is asked to do afterwards.
+func disturb() {
+	noiseMap.Xml()
+	noiseMap.XmlIndent("", "  ")
+	noiseMap.Json()
+	noiseMap.Json(true)
+	noiseMap.JsonIndent("", " ")
+	if ms, err := mxj.NewMapXmlSeq([]byte(`<q w="1"><!--c--><e>5</e><f/></q>`)); err == nil {
+		ms.Xml() // decoded under the options in force, so its reserved keys carry the current prefix
+		ms.XmlIndent("", " ")
+	}
+	noiseMap.Gob()
+	(mxj.Map{"z": "s"}).Xml()
+	(mxj.Map{"z": "s"}).Json()
+	mxj.AnyXml([]interface{}{"x", 1.5})
+}
+
 // runProp drives one property: gen draws a case, check decides it.
 func runProp[C any](t *testing.T, prop string, gen func(*rapid.T) C, check func(C, *Info) *Failure) {
 	if want := os.Getenv("VERIF_PROP"); want != "" && want != prop {
